@@ -233,47 +233,63 @@ def _check_rollup_filter(ctx):
     f = prog.func("mokapot.brew_rollup.do_rollup")
     du = DefUse(prog, f)
     T = Terms(du)
-    # every list that feeds the readers must pass the file_root filter
+    # every list that feeds the readers must pass the file_root filter:
+    # start from the sink (the readers handed to the merging reader) and
+    # walk back to the file lists they are built from
+    mr = [n for n in ast.walk(f.node) if isinstance(n, ast.Call)
+          and callee_is(prog, f, n, "MergedTabularDataReader")]
+    ctx.require(len(mr) == 1, f"{f.qual}: merging reader not found")
+    b = prog.bind(prog.func(
+        "mokapot.streaming.MergedTabularDataReader.__init__"), mr[0])
+    ctx.require("readers" in b, f"{f.qual}: readers argument not bound")
+    from ..tutil import concat_parts
     reader_lists = []
-    for n in ast.walk(f.node):
-        if isinstance(n, ast.ListComp) and isinstance(n.elt, ast.Call) and \
-                "ComputedTabularDataReader" in ast.unparse(n.elt.func):
-            reader_lists.append(n)
-    ctx.require(len(reader_lists) >= 2, f"{f.qual}: reader list "
-                "comprehensions not found")
-    for lc in reader_lists:
-        it = T.of(lc.generators[0].iter)
-        txt = tkey(it, 600)
+    for kind, part in concat_parts(T.of(b["readers"])):
+        if kind == "splice" and part[0] == "comp" and len(part[3]) == 1 \
+                and any(x[0] == "call" and x[1] ==
+                        "mokapot.streaming.ComputedTabularDataReader"
+                        for x in walk_term(part[2])):
+            reader_lists.append(part)
+        else:
+            reader_lists.append(None)
+    ctx.require(len(reader_lists) >= 2 and None not in reader_lists,
+                f"{f.qual}: the readers are not built from lists of files "
+                f"({show(T.of(b['readers']), 120)})")
 
-        def leaves(t):
-            if t[0] == "phi":
-                return [y for x in t[1] for y in leaves(x)]
-            if t[0] == "bin" and t[1] == "+":
-                return leaves(t[2]) + leaves(t[3])
-            if t[0] == "call" and t[1] in ("builtins.sorted",
-                                           "builtins.list") and t[2]:
-                return leaves(t[2][0])
-            return [t]
+    def leaves(t):
+        if t[0] == "phi":
+            return [y for x in t[1] for y in leaves(x)]
+        if t[0] == "bin" and t[1] == "+":
+            return leaves(t[2]) + leaves(t[3])
+        if t[0] == "call" and t[1] in ("builtins.sorted",
+                                       "builtins.list") and t[2]:
+            return leaves(t[2][0])
+        return [t]
 
-        def filtered(t):
-            if t[0] != "comp":
-                return False
-            for _names, _it, conds in t[3]:
-                for c in conds:
-                    ctxt = tkey(c, 300)
-                    if c[0] == "un" and c[1] == "not" and \
-                            "startswith(" in ctxt and "file_root" in ctxt:
-                        return True
+    def filtered(t):
+        if t[0] != "comp":
             return False
+        for _names, it_, conds in t[3]:
+            for c in conds:
+                if c[0] == "un" and c[1] == "not" and c[2][0] == "mcall" \
+                        and c[2][2] == "startswith" and len(c[2][3]) == 1 \
+                        and any(x[0] == "attr" and x[2] == "file_root"
+                                for x in walk_term(c[2][3][0])) \
+                        and any(x == ("elem", it_)
+                                for x in walk_term(c[2][1])):
+                    return True
+        return False
 
+    for part in reader_lists:
+        it = part[3][0][1]
         ok = all(filtered(x) for x in leaves(it))
         ctx.check(ok, "C09a-rollup-excludes-own-output", f,
-                  f"input list {ast.unparse(lc.generators[0].iter)} excludes "
+                  f"input list {show(it, 80)} excludes "
                   "files starting with the tool's own file_root",
                   f"on some path the list of input files is not filtered by "
-                  f"'not name.startswith(file_root)': {txt[:200]}: previous "
-                  "outputs of the rollup tool itself are read back in",
-                  node=lc)
+                  f"'not name.startswith(file_root)': {show(it, 200)}: "
+                  "previous outputs of the rollup tool itself are read back "
+                  "in", node=mr[0])
 
 
 def _check_sorted_iterator(ctx):
